@@ -202,6 +202,9 @@ func runC04(c *run.Ctx, s *kit.Summary) {
 		if r.Chance(0.5) {
 			cs.Du = r.Range(2, 40) * 1000000
 		}
+		if r.Chance(0.12) { // a duration that is over before (or just as) the loop first looks at the clock
+			cs.Du = r.PickI64([]int64{1, 100, 1000, 10000, 30000, 100000})
+		}
 		wg.Add(1)
 		sem <- struct{}{}
 		go func(i int, cs caseC04) {
@@ -212,6 +215,9 @@ func runC04(c *run.Ctx, s *kit.Summary) {
 			defer mu.Unlock()
 			s.Case(fmt.Sprint(cs), len(log) >= 3)
 			s.Count(fmt.Sprintf("du=%v", cs.Du > 0))
+			if cs.Du > 0 && cs.Du <= 100000 {
+				s.Count("du=tiny(<=100us)")
+			}
 			s.Count(fmt.Sprintf("consults=%d", min(len(log)/5*5, 25)))
 			if i < 3 {
 				s.Sample(map[string]interface{}{"case": cs, "consultations": log, "results": nres})
